@@ -484,6 +484,7 @@ def r4(repo, run):
 
 def plain_container_eval(repo, run, rule):
     from . import tr
+    unitrules.plain_container_table(repo, run, rule)
     for q, wrap, with_key in (('ConfigDict.ayns.on_evaluate_impl', 'Bunch', True), ('ConfigList.ayns.on_evaluate_impl', 'list', False)):
         fi = repo.func(q)
         pth, ctx = fi.params()[1], fi.params()[2]
@@ -501,6 +502,10 @@ def plain_container_eval(repo, run, rule):
             outside = [e for e in evs if not e.in_loop]
             iters = {e.callee for e in p.events if e.kind == 'call' and e.attr in ('named_children', 'children', 'items', 'values', 'keys', 'sorted', 'reversed', 'enumerate') or (e.kind == 'call' and e.callee in ('sorted', 'reversed', 'enumerate', 'zip'))}
             filt = [t for t, pol in p.facts if t.startswith('comprehension-filter') or 'each(' in t]
+            if not got and not outside:
+                # nothing recognisable on the trace (the evaluation happens in a helper the result constructor consumes):
+                # which children are evaluated, and how, is decided by evaluation (unitrules.plain_container_table)
+                continue
             if got != want:
                 extra, missing = sorted(got - want), sorted(want - got)
                 probs.append('children are evaluated as %s (missing %s, unexpected %s)' % (sorted(got), missing, extra))
